@@ -235,3 +235,1110 @@ Section Lookup.
     rewrite index_from_uid. assumption.
   Qed.
 End Lookup.
+
+(* ------------------------------------------------------------------------------------- *)
+(* D. evaluate_single and the objective                                                   *)
+(* ------------------------------------------------------------------------------------- *)
+Lemma evaluate_single_fst : forall o cache ex wl key g u,
+  fst (evaluate_single o cache ex wl key g u) =
+  if wl && ex then None
+  else Some {| r_uid := u; r_fit := objective_value o (cached_graph cache key g);
+               r_graph := cached_graph cache key g |}.
+Proof.
+  intros. unfold evaluate_single, objective_value. destruct (wl && ex); [reflexivity|].
+  destruct (objective_call o (cached_graph cache key g)). reflexivity.
+Qed.
+
+Lemma evaluate_single_snd : forall o cache ex wl key g u,
+  snd (evaluate_single o cache ex wl key g u) =
+  if wl && ex then []
+  else snd (objective_call o (cached_graph cache key g)) ++ [EvCallback (cached_graph cache key g)].
+Proof.
+  intros. unfold evaluate_single. destruct (wl && ex); [reflexivity|].
+  destruct (objective_call o (cached_graph cache key g)). reflexivity.
+Qed.
+
+(* the metrics called on a graph: all up to the first one that raises *)
+Lemma call_metrics_spec : forall ms k g,
+  fst (call_metrics ms k g) =
+    (if forallb (fun m => match m g with MRaise => false | _ => true end) ms
+     then Some (map (fun m => m g) ms) else None).
+Proof.
+  induction ms as [|m ms IH]; simpl; intros; [reflexivity|].
+  pose proof (IH (S k) g) as H.
+  destruct (call_metrics ms (S k) g) as [rs lg]. simpl in H. subst rs.
+  destruct (m g) eqn:E; simpl; try reflexivity;
+    match goal with |- context [forallb ?p ms] => destruct (forallb p ms) end; reflexivity.
+Qed.
+
+Lemma existsb_missing_vals : forall (ms : list metric) g,
+  forallb (fun m => match m g with MRaise => false | _ => true end) ms = true ->
+  existsb is_missing (map (fun m => m g) ms) = negb (forallb (fun m => is_val (m g)) ms).
+Proof.
+  induction ms as [|m ms IH]; simpl; intros g H; [reflexivity|].
+  apply andb_true_iff in H. destruct H as [H1 H2]. rewrite (IH g H2).
+  destruct (m g); simpl in *; try reflexivity; try discriminate.
+Qed.
+
+Lemma forallb_val_noraise : forall (ms : list metric) g,
+  forallb (fun m => match m g with MRaise => false | _ => true end) ms = false ->
+  forallb (fun m => is_val (m g)) ms = false.
+Proof.
+  induction ms as [|m ms IH]; simpl; intros g H; [discriminate|].
+  destruct (m g); simpl in *; auto.
+Qed.
+
+(* Objective.__call__ computes the fitness the specification describes *)
+Theorem objective_value_spec : forall o g, metrics o <> [] -> objective_value o g = spec_fit o g.
+Proof.
+  intros o g Hne. unfold objective_value, objective_call, spec_fit, evaluable.
+  pose proof (call_metrics_spec (metrics o) 0 g) as H.
+  destruct (call_metrics (metrics o) 0 g) as [rs lg]. simpl in H. subst rs.
+  destruct (forallb (fun m => match m g with MRaise => false | _ => true end) (metrics o)) eqn:E.
+  - simpl. unfold to_fitness. rewrite (existsb_missing_vals _ _ E).
+    destruct (forallb (fun m => is_val (m g)) (metrics o)); simpl.
+    + destruct (metrics o) as [|m ms] eqn:Em; [congruence|]. simpl.
+      rewrite map_map. destruct (multi o); reflexivity.
+    + reflexivity.
+  - simpl. rewrite (forallb_val_noraise _ _ E). reflexivity.
+Qed.
+
+Lemma valid_spec_fit : forall o g, valid (spec_fit o g) = evaluable o g.
+Proof.
+  intros. unfold spec_fit. destruct (evaluable o g) eqn:E; [|reflexivity].
+  unfold evaluable in E. apply andb_true_iff in E. destruct E as [_ E].
+  destruct (multi o); simpl; rewrite map_length; exact E.
+Qed.
+
+(* events of one objective call: only metric events, on that graph; metric 0 is called once
+   when there is a metric *)
+Lemma call_metrics_log : forall ms k g e,
+  In e (snd (call_metrics ms k g)) -> exists j, e = EvMetric j g.
+Proof.
+  induction ms as [|m ms IH]; simpl; intros k g e H; [tauto|].
+  destruct (m g); simpl in H;
+    try (destruct (call_metrics ms (S k) g) as [rs lg] eqn:E; simpl in H;
+         destruct H as [H|H]; [eauto|apply (IH (S k) g e); rewrite E; exact H]).
+  destruct H as [H|[]]. eauto.
+Qed.
+
+Lemma objective_call_log : forall o g e, In e (snd (objective_call o g)) -> exists j, e = EvMetric j g.
+Proof.
+  intros o g e. unfold objective_call.
+  pose proof (call_metrics_log (metrics o) 0 g e) as H.
+  destruct (call_metrics (metrics o) 0 g) as [[rs|] lg]; simpl in *; exact H.
+Qed.
+
+Lemma callback_graphs_app : forall a b, callback_graphs (a ++ b) = callback_graphs a ++ callback_graphs b.
+Proof. intros. unfold callback_graphs. apply flat_map_app. Qed.
+Lemma metric0_graphs_app : forall a b, metric0_graphs (a ++ b) = metric0_graphs a ++ metric0_graphs b.
+Proof. intros. unfold metric0_graphs. apply flat_map_app. Qed.
+Lemma metric_graphs_app : forall a b, metric_graphs (a ++ b) = metric_graphs a ++ metric_graphs b.
+Proof. intros. unfold metric_graphs. apply flat_map_app. Qed.
+
+Lemma callback_graphs_objective : forall o g, callback_graphs (snd (objective_call o g)) = [].
+Proof.
+  intros. unfold callback_graphs.
+  assert (H : forall e, In e (snd (objective_call o g)) -> exists j, e = EvMetric j g) by (apply objective_call_log).
+  induction (snd (objective_call o g)) as [|e l IH]; simpl; [reflexivity|].
+  destruct (H e (or_introl eq_refl)) as [j ->]. simpl. apply IH. intros; apply H; simpl; auto.
+Qed.
+
+Lemma call_metrics_metric0 : forall ms k g,
+  metric0_graphs (snd (call_metrics ms k g)) =
+  match ms with [] => [] | _ => match k with 0 => [g] | _ => [] end end.
+Proof.
+  induction ms as [|m ms IH]; simpl; intros; [reflexivity|].
+  assert (T : metric0_graphs (snd (call_metrics ms (S k) g)) = []).
+  { rewrite IH. destruct ms; reflexivity. }
+  destruct (m g); simpl;
+    try (destruct (call_metrics ms (S k) g) as [rs lg]; simpl in *; rewrite T; destruct k; reflexivity).
+  destruct k; reflexivity.
+Qed.
+
+Lemma metric0_graphs_objective : forall o g,
+  metrics o <> [] -> metric0_graphs (snd (objective_call o g)) = [g].
+Proof.
+  intros o g Hne. unfold objective_call.
+  pose proof (call_metrics_metric0 (metrics o) 0 g) as H.
+  destruct (call_metrics (metrics o) 0 g) as [[rs|] lg]; simpl in *; rewrite H; destruct (metrics o); congruence.
+Qed.
+
+(* events of one evaluation that is not cut off *)
+Definition eval_log (o : objective) (g : graph) : list ev := snd (objective_call o g) ++ [EvCallback g].
+
+Lemma callback_graphs_eval_log : forall o g, callback_graphs (eval_log o g) = [g].
+Proof. intros. unfold eval_log. rewrite callback_graphs_app, callback_graphs_objective. reflexivity. Qed.
+
+Lemma metric0_graphs_eval_log : forall o g, metrics o <> [] -> metric0_graphs (eval_log o g) = [g].
+Proof.
+  intros. unfold eval_log. rewrite metric0_graphs_app, metric0_graphs_objective by assumption. reflexivity.
+Qed.
+
+Lemma metric_graphs_eval_log : forall o g g', In g' (metric_graphs (eval_log o g)) -> g' = g.
+Proof.
+  intros o g g' H. unfold eval_log in H. rewrite metric_graphs_app in H. apply in_app_or in H.
+  destruct H as [H|H]; [|simpl in H; tauto].
+  unfold metric_graphs in H. apply in_flat_map in H. destruct H as [e [He Hg]].
+  destruct (objective_call_log o g e He) as [j ->]. simpl in Hg. destruct Hg as [Hg|[]]. auto.
+Qed.
+
+(* ------------------------------------------------------------------------------------- *)
+(* E. closed forms of the two dispatchers                                                 *)
+(* ------------------------------------------------------------------------------------- *)
+Definition evaluated_ind (o : objective) (g : graph) (i : ind) : ind :=
+  {| uid := uid i; fitness := objective_value o g; gr := g |}.
+
+(* the graph the evaluation of i is run on, given the cache *)
+Definition cgc (cache : dict graph) (i : ind) : graph := cached_graph cache (Some (uid i)) (gr i).
+
+(* individuals evaluated by the fan-out: not cut off by the time limit and evaluable *)
+Definition survivors (o : objective) (cg : ind -> graph) (timer : nat -> bool) (te : list ind) : list ind :=
+  flat_map (fun ki => if timer (fst ki) then []
+                      else if valid (objective_value o (cg (snd ki))) then [evaluated_ind o (cg (snd ki)) (snd ki)]
+                      else []) (index_from 0 te).
+
+Definition main_log_spec (o : objective) (cg : ind -> graph) (timer : nat -> bool) (te : list ind) : list ev :=
+  flat_map (fun ki => if timer (fst ki) then [] else eval_log o (cg (snd ki))) (index_from 0 te).
+
+Definition first_evaluable (o : objective) (cg : ind -> graph) (inds : list ind) : option ind :=
+  find (fun i => valid (objective_value o (cg i))) inds.
+
+Fixpoint upto_first {A} (p : A -> bool) (l : list A) : list A :=
+  match l with [] => [] | x :: r => if p x then [x] else x :: upto_first p r end.
+
+Definition fallback_spec (o : objective) (cg : ind -> graph) (inds : list ind) : list ind :=
+  match first_evaluable o cg inds with Some i => [evaluated_ind o (cg i) i] | None => [] end.
+
+Definition fallback_log_spec (o : objective) (cg : ind -> graph) (inds : list ind) : list ev :=
+  flat_map (fun i => eval_log o (cg i)) (upto_first (fun i => valid (objective_value o (cg i))) inds).
+
+Lemma evaluate_single_nolimit : forall o cache ex key g u,
+  evaluate_single o cache ex false key g u =
+  (Some {| r_uid := u; r_fit := objective_value o (cached_graph cache key g);
+           r_graph := cached_graph cache key g |}, eval_log o (cached_graph cache key g)).
+Proof.
+  intros. unfold evaluate_single, objective_value, eval_log. simpl.
+  destruct (objective_call o (cached_graph cache key g)). reflexivity.
+Qed.
+
+Lemma apply_single : forall i e,
+  valid (fitness i) = false -> r_uid e = uid i ->
+  apply_evaluation_results [i] [Some e] = Ok (if valid (r_fit e) then [updated i e] else []).
+Proof.
+  intros i e Hi Hu. unfold apply_evaluation_results, results_dict, truthy_pairs. simpl.
+  destruct (valid (r_fit e)) eqn:Ev; simpl.
+  - unfold dict_of_pairs. simpl. rewrite Hu, Nat.eqb_refl, Ev. simpl.
+    unfold set_evaluation_result. rewrite Hi. reflexivity.
+  - reflexivity.
+Qed.
+
+Lemma fallback_closed : forall o cache inds,
+  all_invalid inds ->
+  fallback o cache inds = (Ok (fallback_spec o (cgc cache) inds), fallback_log_spec o (cgc cache) inds).
+Proof.
+  induction inds as [|i inds IH]; intros Hinv; [reflexivity|].
+  assert (Hi : valid (fitness i) = false) by (apply Hinv; simpl; auto).
+  assert (H' : all_invalid inds) by (intros j Hj; apply Hinv; simpl; auto).
+  cbn [fallback]. rewrite evaluate_single_nolimit.
+  rewrite apply_single by auto. cbn [r_fit].
+  unfold fallback_spec, fallback_log_spec, first_evaluable. cbn [find upto_first]. fold (cgc cache i).
+  destruct (valid (objective_value o (cgc cache i))) eqn:Ev.
+  - unfold updated, evaluated_ind. simpl. rewrite app_nil_r. reflexivity.
+  - rewrite (IH H'). unfold fallback_spec, fallback_log_spec, first_evaluable. simpl. reflexivity.
+Qed.
+
+Lemma filter_nil_all : forall A (p : A -> bool) l, filter p l = [] -> forall x, In x l -> p x = false.
+Proof.
+  induction l as [|a l IH]; simpl; intros H x Hx; [tauto|].
+  destruct (p a) eqn:E; [discriminate|]. destruct Hx as [->|Hx]; auto.
+Qed.
+
+Lemma mp_single_uid : forall o cache timer ki e,
+  fst (mp_single o cache timer ki) = Some e -> r_uid e = uid (snd ki).
+Proof.
+  intros o cache timer ki e. unfold mp_single. rewrite evaluate_single_fst.
+  destruct (true && timer (fst ki)); [discriminate|]. intros H. inversion H. reflexivity.
+Qed.
+
+Lemma seq_single_uid : forall o timer ki e,
+  fst (seq_single o timer ki) = Some e -> r_uid e = uid (snd ki).
+Proof.
+  intros o timer ki e. unfold seq_single. rewrite evaluate_single_fst.
+  destruct (true && timer (fst ki)); [discriminate|]. intros H. inversion H. reflexivity.
+Qed.
+
+Lemma evaluated_of_mp : forall o cache timer l,
+  evaluated_of (fun ki => fst (mp_single o cache timer ki)) l =
+  flat_map (fun ki => if timer (fst ki) then []
+                      else if valid (objective_value o (cgc cache (snd ki)))
+                           then [evaluated_ind o (cgc cache (snd ki)) (snd ki)] else []) l.
+Proof.
+  intros. unfold evaluated_of. apply flat_map_ext. intros ki. unfold mp_single.
+  rewrite evaluate_single_fst. simpl. destruct (timer (fst ki)); reflexivity.
+Qed.
+
+Lemma evaluated_of_seq : forall o timer l,
+  evaluated_of (fun ki => fst (seq_single o timer ki)) l =
+  flat_map (fun ki => if timer (fst ki) then []
+                      else if valid (objective_value o (gr (snd ki)))
+                           then [evaluated_ind o (gr (snd ki)) (snd ki)] else []) l.
+Proof.
+  intros. unfold evaluated_of. apply flat_map_ext. intros ki. unfold seq_single.
+  rewrite evaluate_single_fst. simpl. destruct (timer (fst ki)); reflexivity.
+Qed.
+
+Lemma concat_map_snd : forall A B C (f : A -> B * list C) l,
+  concat (map snd (map f l)) = flat_map (fun a => snd (f a)) l.
+Proof. intros. rewrite map_map. symmetry. apply flat_map_concat_map. Qed.
+
+Lemma mp_main_log : forall o cache timer inds,
+  concat (map snd (mp_main o cache timer inds)) = main_log_spec o (cgc cache) timer (to_evaluate inds).
+Proof.
+  intros. unfold mp_main, main_log_spec. rewrite concat_map_snd. apply flat_map_ext. intros ki.
+  unfold mp_single. rewrite evaluate_single_snd. simpl. destruct (timer (fst ki)); reflexivity.
+Qed.
+
+Lemma seq_main_log : forall o timer pop,
+  concat (map snd (seq_main o timer pop)) = main_log_spec o gr timer (to_evaluate pop).
+Proof.
+  intros. unfold seq_main, main_log_spec. rewrite concat_map_snd. apply flat_map_ext. intros ki.
+  unfold seq_single. rewrite evaluate_single_snd. simpl. destruct (timer (fst ki)); reflexivity.
+Qed.
+
+Lemma filter_rev' : forall A (p : A -> bool) l, filter p (rev l) = rev (filter p l).
+Proof.
+  induction l as [|a l IH]; simpl; [reflexivity|].
+  rewrite filter_app, IH. simpl. destruct (p a); simpl; [reflexivity|apply app_nil_r].
+Qed.
+
+Lemma to_evaluate_rev : forall pop, to_evaluate (rev pop) = rev (to_evaluate pop).
+Proof. intros. apply filter_rev'. Qed.
+Lemma to_skip_rev : forall pop, to_skip (rev pop) = rev (to_skip pop).
+Proof. intros. apply filter_rev'. Qed.
+
+Lemma NoDup_to_evaluate_rev : forall pop,
+  NoDup (map uid (to_evaluate pop)) -> NoDup (map uid (to_evaluate (rev pop))).
+Proof.
+  intros pop ND. rewrite to_evaluate_rev, map_rev. eapply Permutation_NoDup; [apply Permutation_rev|exact ND].
+Qed.
+
+(* --- the parallel dispatcher ---------------------------------------------------------- *)
+Definition mp_spec (o : objective) (cache : dict graph) (timer : nat -> bool) (inds : list ind) : list ind :=
+  match survivors o (cgc cache) timer (to_evaluate inds) ++ to_skip inds with
+  | [] => fallback_spec o (cgc cache) inds
+  | s => s
+  end.
+
+Definition mp_log_spec (o : objective) (cache : dict graph) (timer : nat -> bool) (inds : list ind) : list ev :=
+  main_log_spec o (cgc cache) timer (to_evaluate inds) ++
+  match survivors o (cgc cache) timer (to_evaluate inds) ++ to_skip inds with
+  | [] => fallback_log_spec o (cgc cache) inds
+  | _ => []
+  end.
+
+Theorem mp_finish_closed : forall o cache timer inds rs lg,
+  NoDup (map uid (to_evaluate inds)) ->
+  Permutation rs (map fst (mp_main o cache timer inds)) ->
+  mp_finish o cache inds rs lg =
+  (Ok (mp_spec o cache timer inds),
+   lg ++ match survivors o (cgc cache) timer (to_evaluate inds) ++ to_skip inds with
+         | [] => fallback_log_spec o (cgc cache) inds
+         | _ => []
+         end).
+Proof.
+  intros o cache timer inds rs lg ND P. unfold mp_finish, mp_main in *. rewrite map_map in P.
+  rewrite (apply_closed (fun ki => fst (mp_single o cache timer ki)) (mp_single_uid o cache timer)
+                        (to_evaluate inds) 0 rs ND (to_evaluate_invalid inds) P).
+  rewrite evaluated_of_mp. unfold mp_spec. fold (survivors o (cgc cache) timer (to_evaluate inds)).
+  destruct (survivors o (cgc cache) timer (to_evaluate inds) ++ to_skip inds) eqn:E.
+  - apply app_eq_nil in E. destruct E as [_ E].
+    assert (Hinv : all_invalid inds).
+    { intros i Hi. apply (filter_nil_all _ _ _ E i Hi). }
+    rewrite (fallback_closed o cache inds Hinv). reflexivity.
+  - rewrite app_nil_r. reflexivity.
+Qed.
+
+Theorem evaluate_with_cache_closed : forall o d timer pop,
+  NoDup (map uid (to_evaluate pop)) ->
+  evaluate_with_cache o d timer pop =
+  (Ok (mp_spec o (remote_compute_cache d (rev pop)) timer (rev pop)),
+   mp_log_spec o (remote_compute_cache d (rev pop)) timer (rev pop)).
+Proof.
+  intros o d timer pop ND. unfold evaluate_with_cache, mp_evaluate_population.
+  rewrite (mp_finish_closed o _ timer (rev pop) _ _); auto.
+  - rewrite mp_main_log. reflexivity.
+  - apply NoDup_to_evaluate_rev. exact ND.
+Qed.
+
+(* --- the sequential dispatcher --------------------------------------------------------- *)
+Definition seq_spec (o : objective) (timer : nat -> bool) (pop : list ind) : list ind :=
+  survivors o gr timer (to_evaluate pop) ++ to_skip pop.
+
+Theorem seq_finish_closed : forall o timer pop rs,
+  NoDup (map uid (to_evaluate pop)) ->
+  Permutation rs (map fst (seq_main o timer pop)) ->
+  seq_finish pop rs = Ok (seq_spec o timer pop).
+Proof.
+  intros o timer pop rs ND P. unfold seq_finish, seq_main in *. rewrite map_map in P.
+  rewrite (apply_closed (fun ki => fst (seq_single o timer ki)) (seq_single_uid o timer)
+                        (to_evaluate pop) 0 rs ND (to_evaluate_invalid pop) P).
+  rewrite evaluated_of_seq. reflexivity.
+Qed.
+
+Theorem sequential_evaluate_closed : forall o timer pop,
+  NoDup (map uid (to_evaluate pop)) ->
+  sequential_evaluate o timer pop = (Ok (seq_spec o timer pop), main_log_spec o gr timer (to_evaluate pop)).
+Proof.
+  intros o timer pop ND. unfold sequential_evaluate.
+  rewrite (seq_finish_closed o timer pop _ ND (Permutation_refl _)). rewrite seq_main_log. reflexivity.
+Qed.
+
+(* --- (3) the order in which the results come back is irrelevant ------------------------ *)
+Theorem order_independent_par : forall shuffle o d timer pop,
+  (forall l, Permutation (shuffle l) l) ->
+  NoDup (map uid (to_evaluate pop)) ->
+  evaluate_with_cache_shuffled shuffle o d timer pop = evaluate_with_cache o d timer pop.
+Proof.
+  intros shuffle o d timer pop Hs ND.
+  pose proof (NoDup_to_evaluate_rev pop ND) as ND'.
+  unfold evaluate_with_cache_shuffled, evaluate_with_cache, mp_evaluate_population.
+  rewrite (mp_finish_closed o _ timer (rev pop) _ _ ND' (Hs _)).
+  rewrite (mp_finish_closed o _ timer (rev pop) _ _ ND' (Permutation_refl _)). reflexivity.
+Qed.
+
+Theorem order_independent_seq : forall shuffle o timer pop,
+  (forall l, Permutation (shuffle l) l) ->
+  NoDup (map uid (to_evaluate pop)) ->
+  sequential_evaluate_shuffled shuffle o timer pop = sequential_evaluate o timer pop.
+Proof.
+  intros shuffle o timer pop Hs ND. unfold sequential_evaluate_shuffled, sequential_evaluate.
+  rewrite (seq_finish_closed o timer pop _ ND (Hs _)).
+  rewrite (seq_finish_closed o timer pop _ ND (Permutation_refl _)). reflexivity.
+Qed.
+
+(* ------------------------------------------------------------------------------------- *)
+(* F. the clauses of the property                                                         *)
+(* ------------------------------------------------------------------------------------- *)
+Lemma survivors_In : forall o cg timer te x,
+  In x (survivors o cg timer te) <->
+  exists k i, In (k, i) (index_from 0 te) /\ timer k = false /\
+              valid (objective_value o (cg i)) = true /\ x = evaluated_ind o (cg i) i.
+Proof.
+  intros. unfold survivors. rewrite in_flat_map. split.
+  - intros [[k i] [Hin Hx]]. simpl in Hx. destruct (timer k) eqn:Et; [simpl in Hx; tauto|].
+    destruct (valid (objective_value o (cg i))) eqn:Ev; simpl in Hx; [|tauto].
+    destruct Hx as [Hx|[]]. exists k, i. auto.
+  - intros [k [i [Hin [Et [Ev Hx]]]]]. exists (k, i). split; auto. simpl. rewrite Et, Ev. simpl. auto.
+Qed.
+
+Lemma fallback_spec_In : forall o cg inds x,
+  In x (fallback_spec o cg inds) ->
+  exists i, In i inds /\ valid (objective_value o (cg i)) = true /\ x = evaluated_ind o (cg i) i.
+Proof.
+  intros o cg inds x. unfold fallback_spec, first_evaluable.
+  destruct (find _ inds) as [i|] eqn:E; simpl; [|tauto].
+  intros [Hx|[]]. apply find_some in E. destruct E as [E1 E2]. exists i. subst x. auto.
+Qed.
+
+Lemma in_flat_map_flat_map : forall A B C (h : B -> list C) (F : A -> list B) l c,
+  In c (flat_map h (flat_map F l)) <-> exists a, In a l /\ In c (flat_map h (F a)).
+Proof.
+  intros. rewrite in_flat_map. split.
+  - intros [b [Hb Hc]]. apply in_flat_map in Hb. destruct Hb as [a [Ha Hb]].
+    exists a. split; auto. apply in_flat_map. eauto.
+  - intros [a [Ha Hc]]. apply in_flat_map in Hc. destruct Hc as [b [Hb Hc]].
+    exists b. split; auto. apply in_flat_map. eauto.
+Qed.
+
+Lemma main_log_metric_graphs : forall o cg timer te g,
+  In g (metric_graphs (main_log_spec o cg timer te)) -> exists i, In i te /\ g = cg i.
+Proof.
+  intros o cg timer te g H. unfold metric_graphs, main_log_spec in H.
+  apply in_flat_map_flat_map in H. destruct H as [[k i] [Hin Hg]]. simpl in Hg.
+  destruct (timer k); [simpl in Hg; tauto|].
+  exists i. split; [apply (index_from_In_snd te 0 (k, i) Hin)|]. apply (metric_graphs_eval_log o (cg i) g Hg).
+Qed.
+
+Lemma upto_first_incl : forall A (p : A -> bool) l x, In x (upto_first p l) -> In x l.
+Proof.
+  induction l as [|a l IH]; simpl; intros x H; [tauto|].
+  destruct (p a); simpl in H; destruct H as [H|H]; auto; tauto.
+Qed.
+
+Lemma fallback_log_metric_graphs : forall o cg inds g,
+  In g (metric_graphs (fallback_log_spec o cg inds)) -> exists i, In i inds /\ g = cg i.
+Proof.
+  intros o cg inds g H. unfold metric_graphs, fallback_log_spec in H.
+  apply in_flat_map_flat_map in H. destruct H as [i [Hin Hg]].
+  exists i. split; [eapply upto_first_incl; eauto|]. apply (metric_graphs_eval_log o (cg i) g Hg).
+Qed.
+
+Lemma eff_graph_cgc : forall d pop i, eff_graph d pop i = cgc (remote_compute_cache d (rev pop)) i.
+Proof. reflexivity. Qed.
+
+Lemma in_rev_iff : forall A (l : list A) x, In x (rev l) <-> In x l.
+Proof. intros. symmetry. apply in_rev. Qed.
+
+(* the fan-out produced nothing and nothing was pre-evaluated *)
+Definition main_pass_empty (o : objective) (d : delegate) (timer : nat -> bool) (pop : list ind) : Prop :=
+  survivors o (eff_graph d pop) timer (to_evaluate (rev pop)) ++ to_skip (rev pop) = [].
+
+Lemma main_pass_empty_iff : forall o d timer pop,
+  main_pass_empty o d timer pop <->
+  to_skip pop = [] /\
+  forall k i, In (k, i) (index_from 0 (to_evaluate (rev pop))) ->
+              timer k = true \/ valid (objective_value o (eff_graph d pop i)) = false.
+Proof.
+  intros. unfold main_pass_empty. split.
+  - intros H. apply app_eq_nil in H. destruct H as [H1 H2]. split.
+    + rewrite to_skip_rev in H2. destruct (to_skip pop); [reflexivity|].
+      simpl in H2. apply app_eq_nil in H2. destruct H2; discriminate.
+    + intros k i Hin. destruct (timer k) eqn:Et; auto. right.
+      destruct (valid (objective_value o (eff_graph d pop i))) eqn:Ev; auto.
+      exfalso. assert (Hx : In (evaluated_ind o (eff_graph d pop i) i)
+                               (survivors o (eff_graph d pop) timer (to_evaluate (rev pop)))).
+      { apply survivors_In. exists k, i. auto. }
+      rewrite H1 in Hx. exact Hx.
+  - intros [H1 H2]. rewrite to_skip_rev, H1. simpl. rewrite app_nil_r.
+    destruct (survivors o (eff_graph d pop) timer (to_evaluate (rev pop))) as [|x l] eqn:E; [reflexivity|].
+    assert (Hx : In x (survivors o (eff_graph d pop) timer (to_evaluate (rev pop)))) by (rewrite E; simpl; auto).
+    apply survivors_In in Hx. destruct Hx as [k [i [Hin [Et [Ev _]]]]].
+    destruct (H2 k i Hin); congruence.
+Qed.
+
+(* --- (1) soundness ------------------------------------------------------------------------ *)
+Theorem eval_sound_par : forall o d timer pop,
+  NoDup (map uid (to_evaluate pop)) ->
+  exists out lg, evaluate_with_cache o d timer pop = (Ok out, lg) /\
+    (forall x, In x out ->
+       valid (fitness x) = true /\
+       ((In x pop (* passed through unchanged *)) \/
+        (exists i, In i pop /\ valid (fitness i) = false /\ x = evaluated_ind o (eff_graph d pop i) i))) /\
+    (forall g, In g (metric_graphs lg) ->
+       exists i, In i pop /\ valid (fitness i) = false /\ g = eff_graph d pop i).
+Proof.
+  intros o d timer pop ND. rewrite (evaluate_with_cache_closed o d timer pop ND).
+  eexists. eexists. split; [reflexivity|]. split.
+  - intros x Hx. unfold mp_spec in Hx.
+    destruct (survivors o (cgc (remote_compute_cache d (rev pop))) timer (to_evaluate (rev pop))
+              ++ to_skip (rev pop)) as [|y s] eqn:E.
+    + apply fallback_spec_In in Hx. destruct Hx as [i [Hi [Ev ->]]].
+      apply app_eq_nil in E. destruct E as [_ E].
+      split; [exact Ev|]. right. exists i. split; [apply in_rev_iff; exact Hi|]. split; [|reflexivity].
+      apply (filter_nil_all _ _ _ E i Hi).
+    + rewrite <- E in Hx. apply in_app_or in Hx. destruct Hx as [Hx|Hx].
+      * apply survivors_In in Hx. destruct Hx as [k [i [Hin [Et [Ev ->]]]]].
+        apply index_from_In_snd in Hin. simpl in Hin. apply to_evaluate_In in Hin. destruct Hin as [Hi Hv].
+        split; [exact Ev|]. right. exists i. split; [apply in_rev_iff; exact Hi|]. auto.
+      * apply to_skip_valid in Hx. destruct Hx as [Hx Hv]. split; [exact Hv|]. left. apply in_rev_iff. exact Hx.
+  - intros g Hg. unfold mp_log_spec in Hg. rewrite metric_graphs_app in Hg. apply in_app_or in Hg.
+    destruct Hg as [Hg|Hg].
+    + apply main_log_metric_graphs in Hg. destruct Hg as [i [Hi ->]].
+      apply to_evaluate_In in Hi. destruct Hi as [Hi Hv]. exists i. split; [apply in_rev_iff; exact Hi|]. auto.
+    + destruct (survivors o (cgc (remote_compute_cache d (rev pop))) timer (to_evaluate (rev pop))
+                ++ to_skip (rev pop)) as [|y s] eqn:E; [|simpl in Hg; tauto].
+      apply fallback_log_metric_graphs in Hg. destruct Hg as [i [Hi ->]].
+      apply app_eq_nil in E. destruct E as [_ E].
+      exists i. split; [apply in_rev_iff; exact Hi|]. split; [|reflexivity]. apply (filter_nil_all _ _ _ E i Hi).
+Qed.
+
+Theorem eval_sound_seq : forall o timer pop,
+  NoDup (map uid (to_evaluate pop)) ->
+  exists out lg, sequential_evaluate o timer pop = (Ok out, lg) /\
+    (forall x, In x out ->
+       valid (fitness x) = true /\
+       (In x pop \/ (exists i, In i pop /\ valid (fitness i) = false /\ x = evaluated_ind o (gr i) i))) /\
+    (forall g, In g (metric_graphs lg) -> exists i, In i pop /\ valid (fitness i) = false /\ g = gr i).
+Proof.
+  intros o timer pop ND. rewrite (sequential_evaluate_closed o timer pop ND).
+  eexists. eexists. split; [reflexivity|]. split.
+  - intros x Hx. unfold seq_spec in Hx. apply in_app_or in Hx. destruct Hx as [Hx|Hx].
+    + apply survivors_In in Hx. destruct Hx as [k [i [Hin [Et [Ev ->]]]]].
+      apply index_from_In_snd in Hin. simpl in Hin. apply to_evaluate_In in Hin. destruct Hin as [Hi Hv].
+      split; [exact Ev|]. right. exists i. auto.
+    + apply to_skip_valid in Hx. destruct Hx as [Hx Hv]. auto.
+  - intros g Hg. apply main_log_metric_graphs in Hg. destruct Hg as [i [Hi ->]].
+    apply to_evaluate_In in Hi. destruct Hi as [Hi Hv]. exists i. auto.
+Qed.
+
+(* --- (2) completeness ----------------------------------------------------------------------- *)
+Lemma index_from_unique : forall te k ki ki',
+  NoDup (map uid te) -> In ki (index_from k te) -> In ki' (index_from k te) ->
+  uid (snd ki) = uid (snd ki') -> ki = ki'.
+Proof.
+  intros te k ki ki' ND H H' E.
+  apply (NoDup_map_inj_in _ _ (fun ki => uid (snd ki)) (index_from k te)); auto.
+  rewrite index_from_uid. exact ND.
+Qed.
+
+Lemma survivors_present_iff : forall o cg timer te k i,
+  NoDup (map uid te) -> In (k, i) (index_from 0 te) ->
+  ((exists x, In x (survivors o cg timer te) /\ uid x = uid i) <->
+   timer k = false /\ valid (objective_value o (cg i)) = true).
+Proof.
+  intros o cg timer te k i ND Hin. split.
+  - intros [x [Hx Hu]]. apply survivors_In in Hx. destruct Hx as [k' [i' [Hin' [Et [Ev ->]]]]].
+    simpl in Hu. assert (E : (k', i') = (k, i)) by (eapply index_from_unique; eauto).
+    inversion E; subst. auto.
+  - intros [Et Ev]. exists (evaluated_ind o (cg i) i). split; [|reflexivity].
+    apply survivors_In. exists k, i. auto.
+Qed.
+
+Theorem eval_complete_seq : forall o timer pop k i,
+  NoDup (map uid (to_evaluate pop)) ->
+  In (k, i) (index_from 0 (to_evaluate pop)) ->       (* i is the k-th individual to evaluate *)
+  ~ In (uid i) (map uid (to_skip pop)) ->
+  forall out lg, sequential_evaluate o timer pop = (Ok out, lg) ->
+  ((exists x, In x out /\ uid x = uid i) <-> timer k = false /\ valid (objective_value o (gr i)) = true).
+Proof.
+  intros o timer pop k i ND Hin Hns out lg H.
+  rewrite (sequential_evaluate_closed o timer pop ND) in H. inversion H; subst out lg. clear H.
+  rewrite <- (survivors_present_iff o gr timer (to_evaluate pop) k i ND Hin). unfold seq_spec. split.
+  - intros [x [Hx Hu]]. apply in_app_or in Hx. destruct Hx as [Hx|Hx]; [eauto|].
+    exfalso. apply Hns. rewrite <- Hu. apply in_map. exact Hx.
+  - intros [x [Hx Hu]]. exists x. split; auto. apply in_or_app. auto.
+Qed.
+
+Theorem eval_complete_par : forall o d timer pop k i,
+  NoDup (map uid (to_evaluate pop)) ->
+  In (k, i) (index_from 0 (to_evaluate (rev pop))) -> (* i is the k-th individual handed to joblib *)
+  ~ In (uid i) (map uid (to_skip pop)) ->
+  ~ main_pass_empty o d timer pop ->
+  forall out lg, evaluate_with_cache o d timer pop = (Ok out, lg) ->
+  ((exists x, In x out /\ uid x = uid i) <->
+   timer k = false /\ valid (objective_value o (eff_graph d pop i)) = true).
+Proof.
+  intros o d timer pop k i ND Hin Hns Hne out lg H.
+  rewrite (evaluate_with_cache_closed o d timer pop ND) in H. inversion H; subst out lg. clear H.
+  pose proof (NoDup_to_evaluate_rev pop ND) as ND'.
+  rewrite <- (survivors_present_iff o (eff_graph d pop) timer (to_evaluate (rev pop)) k i ND' Hin).
+  unfold mp_spec. unfold main_pass_empty in Hne.
+  change (cgc (remote_compute_cache d (rev pop))) with (eff_graph d pop).
+  destruct (survivors o (eff_graph d pop) timer (to_evaluate (rev pop)) ++ to_skip (rev pop)) as [|y s] eqn:E;
+    [exfalso; apply Hne; reflexivity|].
+  rewrite <- E. split.
+  - intros [x [Hx Hu]]. apply in_app_or in Hx. destruct Hx as [Hx|Hx]; [eauto|].
+    exfalso. apply Hns. rewrite <- Hu. apply in_map. rewrite to_skip_rev in Hx. apply (proj1 (in_rev_iff _ _ _)) in Hx. exact Hx.
+  - intros [x [Hx Hu]]. exists x. split; auto. apply in_or_app. auto.
+Qed.
+
+(* --- (4) the forced evaluation -------------------------------------------------------------- *)
+Theorem fallback_when_main_pass_empty : forall o d timer pop,
+  NoDup (map uid (to_evaluate pop)) -> main_pass_empty o d timer pop ->
+  fst (evaluate_with_cache o d timer pop) = Ok (fallback_spec o (eff_graph d pop) (rev pop)).
+Proof.
+  intros o d timer pop ND He. rewrite (evaluate_with_cache_closed o d timer pop ND). simpl.
+  unfold mp_spec. change (cgc (remote_compute_cache d (rev pop))) with (eff_graph d pop).
+  unfold main_pass_empty in He. rewrite He. reflexivity.
+Qed.
+
+Lemma survivors_expired : forall o cg timer te, (forall k, timer k = true) -> survivors o cg timer te = [].
+Proof.
+  intros o cg timer te H. unfold survivors. induction (index_from 0 te) as [|ki l IH]; simpl; [reflexivity|].
+  rewrite H. simpl. exact IH.
+Qed.
+
+Theorem expired_timer_fallback : forall o d timer pop,
+  NoDup (map uid (to_evaluate pop)) -> (forall k, timer k = true) ->
+  fst (evaluate_with_cache o d timer pop) =
+  Ok (match to_skip (rev pop) with
+      | [] => fallback_spec o (eff_graph d pop) (rev pop)
+      | s => s
+      end).
+Proof.
+  intros o d timer pop ND Ht. rewrite (evaluate_with_cache_closed o d timer pop ND). simpl.
+  unfold mp_spec. rewrite (survivors_expired _ _ _ _ Ht). simpl. reflexivity.
+Qed.
+
+(* what "the first evaluable one" means *)
+Lemma find_first : forall A (p : A -> bool) l x,
+  find p l = Some x <-> exists l1 l2, l = l1 ++ x :: l2 /\ p x = true /\ forall y, In y l1 -> p y = false.
+Proof.
+  induction l as [|a l IH]; simpl; intros x.
+  - split; [discriminate|]. intros [l1 [l2 [H _]]]. destruct l1; discriminate.
+  - destruct (p a) eqn:E.
+    + split.
+      * intros H. inversion H; subst. exists [], l. simpl. repeat split; auto. tauto.
+      * intros [l1 [l2 [H [Hp Hn]]]]. destruct l1 as [|b l1]; simpl in H; inversion H; subst; auto.
+        rewrite (Hn b) in E by (simpl; auto). discriminate.
+    + rewrite IH. split.
+      * intros [l1 [l2 [H [Hp Hn]]]]. exists (a :: l1), l2. subst. simpl. repeat split; auto.
+        intros y [->|Hy]; auto.
+      * intros [l1 [l2 [H [Hp Hn]]]]. destruct l1 as [|b l1]; simpl in H; inversion H; subst.
+        -- congruence.
+        -- exists l1, l2. repeat split; auto. intros; apply Hn; simpl; auto.
+Qed.
+
+Lemma find_none_iff : forall A (p : A -> bool) l, find p l = None <-> forall x, In x l -> p x = false.
+Proof.
+  induction l as [|a l IH]; simpl.
+  - split; auto. tauto.
+  - destruct (p a) eqn:E.
+    + split; [discriminate|]. intros H. rewrite (H a) in E by auto. discriminate.
+    + rewrite IH. split; intros H x; [intros [->|Hx]; auto|auto].
+Qed.
+
+(* with the limit expired from the start and nothing pre-evaluated: exactly one individual, the
+   first evaluable one in reversed input order, iff one exists *)
+Theorem expired_timer_returns_first_evaluable : forall o d timer pop,
+  NoDup (map uid (to_evaluate pop)) -> (forall k, timer k = true) -> to_skip pop = [] ->
+  (forall i l1 l2, rev pop = l1 ++ i :: l2 ->
+     valid (objective_value o (eff_graph d pop i)) = true ->
+     (forall j, In j l1 -> valid (objective_value o (eff_graph d pop j)) = false) ->
+     fst (evaluate_with_cache o d timer pop) = Ok [evaluated_ind o (eff_graph d pop i) i]) /\
+  ((forall i, In i pop -> valid (objective_value o (eff_graph d pop i)) = false) ->
+     fst (evaluate_with_cache o d timer pop) = Ok []).
+Proof.
+  intros o d timer pop ND Ht Hs.
+  rewrite (expired_timer_fallback o d timer pop ND Ht). rewrite to_skip_rev, Hs. simpl. split.
+  - intros i l1 l2 Hsplit Hv Hn. unfold fallback_spec, first_evaluable.
+    assert (F : find (fun i0 => valid (objective_value o (eff_graph d pop i0))) (rev pop) = Some i).
+    { apply find_first. exists l1, l2. auto. }
+    rewrite F. reflexivity.
+  - intros Hn. unfold fallback_spec, first_evaluable.
+    assert (F : find (fun i0 => valid (objective_value o (eff_graph d pop i0))) (rev pop) = None).
+    { apply find_none_iff. intros x Hx. apply Hn. apply in_rev_iff. exact Hx. }
+    rewrite F. reflexivity.
+Qed.
+
+(* --- (5) the post-evaluation callback ------------------------------------------------------- *)
+Lemma flat_map_flat_map : forall A B C (h : B -> list C) (F : A -> list B) l,
+  flat_map h (flat_map F l) = flat_map (fun a => flat_map h (F a)) l.
+Proof.
+  induction l as [|a l IH]; simpl; [reflexivity|]. rewrite flat_map_app, IH. reflexivity.
+Qed.
+
+(* the individuals of the fan-out that were not cut off by the time limit, in submission order *)
+Definition not_cut (timer : nat -> bool) (te : list ind) : list ind :=
+  map snd (filter (fun ki => negb (timer (fst ki))) (index_from 0 te)).
+
+Lemma flat_map_if_filter : forall A B (p : A -> bool) (g : A -> B) l,
+  flat_map (fun a => if p a then [] else [g a]) l = map g (filter (fun a => negb (p a)) l).
+Proof.
+  induction l as [|a l IH]; simpl; [reflexivity|]. destruct (p a); simpl; rewrite IH; reflexivity.
+Qed.
+
+Lemma main_log_callbacks : forall o cg timer te,
+  callback_graphs (main_log_spec o cg timer te) = map cg (not_cut timer te).
+Proof.
+  intros. unfold callback_graphs, main_log_spec, not_cut. rewrite flat_map_flat_map.
+  rewrite map_map. rewrite <- (flat_map_if_filter _ _ (fun ki => timer (fst ki)) (fun ki => cg (snd ki))).
+  apply flat_map_ext. intros ki. destruct (timer (fst ki)); [reflexivity|].
+  apply (callback_graphs_eval_log o (cg (snd ki))).
+Qed.
+
+Lemma main_log_metric0 : forall o cg timer te,
+  metrics o <> [] -> metric0_graphs (main_log_spec o cg timer te) = map cg (not_cut timer te).
+Proof.
+  intros o cg timer te Hne. unfold metric0_graphs, main_log_spec, not_cut. rewrite flat_map_flat_map.
+  rewrite map_map. rewrite <- (flat_map_if_filter _ _ (fun ki => timer (fst ki)) (fun ki => cg (snd ki))).
+  apply flat_map_ext. intros ki. destruct (timer (fst ki)); [reflexivity|].
+  apply (metric0_graphs_eval_log o (cg (snd ki)) Hne).
+Qed.
+
+Lemma flat_map_singleton : forall A B (g : A -> B) l, flat_map (fun a => [g a]) l = map g l.
+Proof. induction l; simpl; intros; f_equal; auto. Qed.
+
+Lemma fallback_log_callbacks : forall o cg inds,
+  callback_graphs (fallback_log_spec o cg inds) =
+  map cg (upto_first (fun i => valid (objective_value o (cg i))) inds).
+Proof.
+  intros. unfold callback_graphs, fallback_log_spec. rewrite flat_map_flat_map.
+  rewrite <- flat_map_singleton. apply flat_map_ext. intros i. apply (callback_graphs_eval_log o (cg i)).
+Qed.
+
+Lemma fallback_log_metric0 : forall o cg inds,
+  metrics o <> [] ->
+  metric0_graphs (fallback_log_spec o cg inds) =
+  map cg (upto_first (fun i => valid (objective_value o (cg i))) inds).
+Proof.
+  intros o cg inds Hne. unfold metric0_graphs, fallback_log_spec. rewrite flat_map_flat_map.
+  rewrite <- flat_map_singleton. apply flat_map_ext. intros i. apply (metric0_graphs_eval_log o (cg i) Hne).
+Qed.
+
+(* the graphs that reached the objective during a call of the parallel evaluator *)
+Definition reached_par (o : objective) (d : delegate) (timer : nat -> bool) (pop : list ind) : list graph :=
+  map (eff_graph d pop) (not_cut timer (to_evaluate (rev pop))) ++
+  match survivors o (eff_graph d pop) timer (to_evaluate (rev pop)) ++ to_skip (rev pop) with
+  | [] => map (eff_graph d pop)
+              (upto_first (fun i => valid (objective_value o (eff_graph d pop i))) (rev pop))
+  | _ => []
+  end.
+
+Theorem callback_log_par : forall o d timer pop,
+  NoDup (map uid (to_evaluate pop)) ->
+  callback_graphs (snd (evaluate_with_cache o d timer pop)) = reached_par o d timer pop /\
+  (metrics o <> [] -> metric0_graphs (snd (evaluate_with_cache o d timer pop)) = reached_par o d timer pop).
+Proof.
+  intros o d timer pop ND. rewrite (evaluate_with_cache_closed o d timer pop ND). simpl.
+  unfold mp_log_spec, reached_par. change (cgc (remote_compute_cache d (rev pop))) with (eff_graph d pop).
+  split.
+  - rewrite callback_graphs_app, main_log_callbacks.
+    destruct (survivors o (eff_graph d pop) timer (to_evaluate (rev pop)) ++ to_skip (rev pop));
+      [rewrite fallback_log_callbacks|]; reflexivity.
+  - intros Hne. rewrite metric0_graphs_app, main_log_metric0 by assumption.
+    destruct (survivors o (eff_graph d pop) timer (to_evaluate (rev pop)) ++ to_skip (rev pop));
+      [rewrite fallback_log_metric0 by assumption|]; reflexivity.
+Qed.
+
+Theorem callback_log_seq : forall o timer pop,
+  NoDup (map uid (to_evaluate pop)) ->
+  callback_graphs (snd (sequential_evaluate o timer pop)) = map gr (not_cut timer (to_evaluate pop)) /\
+  (metrics o <> [] ->
+   metric0_graphs (snd (sequential_evaluate o timer pop)) = map gr (not_cut timer (to_evaluate pop))).
+Proof.
+  intros o timer pop ND. rewrite (sequential_evaluate_closed o timer pop ND). simpl. split.
+  - apply main_log_callbacks.
+  - intros. apply main_log_metric0. assumption.
+Qed.
+
+(* however the workers interleave their events: the callback saw exactly the graphs that reached
+   the objective, as often as they reached it *)
+Theorem callback_once_par : forall o d timer pop lg',
+  NoDup (map uid (to_evaluate pop)) ->
+  Permutation lg' (snd (evaluate_with_cache o d timer pop)) ->
+  Permutation (callback_graphs lg') (reached_par o d timer pop) /\
+  (metrics o <> [] -> Permutation (callback_graphs lg') (metric0_graphs lg')).
+Proof.
+  intros o d timer pop lg' ND P. destruct (callback_log_par o d timer pop ND) as [H1 H2]. split.
+  - rewrite <- H1. unfold callback_graphs. apply Permutation_flat_map. exact P.
+  - intros Hne. eapply Permutation_trans; [unfold callback_graphs; apply Permutation_flat_map; exact P|].
+    fold (callback_graphs (snd (evaluate_with_cache o d timer pop))). rewrite H1, <- (H2 Hne).
+    unfold metric0_graphs. apply Permutation_flat_map. apply Permutation_sym. exact P.
+Qed.
+
+Theorem callback_once_seq : forall o timer pop lg',
+  NoDup (map uid (to_evaluate pop)) ->
+  Permutation lg' (snd (sequential_evaluate o timer pop)) ->
+  Permutation (callback_graphs lg') (map gr (not_cut timer (to_evaluate pop))).
+Proof.
+  intros o timer pop lg' ND P. destruct (callback_log_seq o timer pop ND) as [H1 _].
+  rewrite <- H1. unfold callback_graphs. apply Permutation_flat_map. exact P.
+Qed.
+
+(* "each once": the individuals of the fan-out whose graphs the callback saw are pairwise distinct *)
+Lemma filter_map_NoDup : forall A B (g : A -> B) (p : A -> bool) l, NoDup (map g l) -> NoDup (map g (filter p l)).
+Proof.
+  induction l as [|a l IH]; simpl; intros ND; [constructor|].
+  inversion ND as [|? ? Hn ND']; subst. destruct (p a); simpl; auto.
+  constructor; auto. intros H. apply Hn. apply in_map_iff in H. destruct H as [b [Hb Hin]].
+  apply filter_In in Hin. destruct Hin as [Hin _]. apply in_map_iff. eauto.
+Qed.
+
+Theorem not_cut_distinct : forall timer te, NoDup (map uid te) -> NoDup (map uid (not_cut timer te)).
+Proof.
+  intros timer te ND. unfold not_cut. rewrite map_map.
+  apply filter_map_NoDup. rewrite index_from_uid. exact ND.
+Qed.
+
+(* when the fan-out succeeded nothing is evaluated a second time; when it did not, the forced
+   evaluations re-run graphs that already failed in the fan-out: a failing graph is then seen twice *)
+Theorem no_fallback_callbacks : forall o d timer pop,
+  NoDup (map uid (to_evaluate pop)) -> ~ main_pass_empty o d timer pop ->
+  callback_graphs (snd (evaluate_with_cache o d timer pop)) =
+  map (eff_graph d pop) (not_cut timer (to_evaluate (rev pop))).
+Proof.
+  intros o d timer pop ND Hne. destruct (callback_log_par o d timer pop ND) as [H _]. rewrite H.
+  unfold reached_par. unfold main_pass_empty in Hne.
+  destruct (survivors o (eff_graph d pop) timer (to_evaluate (rev pop)) ++ to_skip (rev pop));
+    [exfalso; apply Hne; reflexivity|apply app_nil_r].
+Qed.
+
+(* --- (6) the delegate evaluator ---------------------------------------------------------------- *)
+Lemma combine_keys_In : forall A B (us : list A) (gs : list B) u, In u (map fst (combine us gs)) -> In u us.
+Proof.
+  induction us as [|a us IH]; simpl; intros gs u H; [tauto|].
+  destruct gs as [|g gs]; simpl in H; [tauto|]. destruct H as [H|H]; eauto.
+Qed.
+
+Lemma combine_keys_NoDup : forall A B (us : list A) (gs : list B), NoDup us -> NoDup (map fst (combine us gs)).
+Proof.
+  induction us as [|a us IH]; simpl; intros gs ND; [constructor|].
+  destruct gs as [|g gs]; simpl; [constructor|].
+  inversion ND; subst. constructor; auto. intros H. apply combine_keys_In in H. auto.
+Qed.
+
+Lemma combine_nth_error : forall A B (us : list A) (gs : list B) k u g,
+  nth_error us k = Some u -> nth_error gs k = Some g -> In (u, g) (combine us gs).
+Proof.
+  induction us as [|a us IH]; intros gs k u g Hu Hg; destruct k; simpl in *; try discriminate.
+  - destruct gs; simpl in *; try discriminate. inversion Hu; inversion Hg; subst. auto.
+  - destruct gs; simpl in *; try discriminate. right. eauto.
+Qed.
+
+Theorem delegate_used : forall f pop k i g,
+  NoDup (map uid pop) ->
+  nth_error (rev pop) k = Some i ->                    (* i is the k-th individual handed to the delegate *)
+  nth_error (f (map gr (rev pop))) k = Some g ->       (* g is the k-th graph the delegate returned *)
+  eff_graph (Some f) pop i = g.
+Proof.
+  intros f pop k i g ND Hi Hg. unfold eff_graph, cached_graph, remote_compute_cache.
+  rewrite dict_get_of_pairs.
+  assert (NDc : NoDup (map fst (combine (map uid (rev pop)) (f (map gr (rev pop)))))).
+  { apply combine_keys_NoDup. rewrite map_rev. eapply Permutation_NoDup; [apply Permutation_rev|exact ND]. }
+  rewrite (dict_get_perm _ _ _ (combine (map uid (rev pop)) (f (map gr (rev pop))))).
+  - rewrite (dict_get_NoDup_In _ (uid i) g); auto.
+    eapply combine_nth_error; eauto. rewrite nth_error_map, Hi. reflexivity.
+  - eapply Permutation_NoDup; [apply Permutation_map; apply Permutation_rev|exact NDc].
+  - apply Permutation_sym, Permutation_rev.
+Qed.
+
+Theorem delegate_absent : forall pop i, eff_graph None pop i = gr i.
+Proof. reflexivity. Qed.
+
+(* an individual for which the delegate returned nothing is evaluated on its own graph *)
+Theorem delegate_silent : forall f pop i,
+  ~ In (uid i) (map fst (combine (map uid (rev pop)) (f (map gr (rev pop))))) ->
+  eff_graph (Some f) pop i = gr i.
+Proof.
+  intros f pop i H. unfold eff_graph, cached_graph, remote_compute_cache.
+  rewrite dict_get_of_pairs.
+  assert (E : dict_get (uid i) (rev (combine (map uid (rev pop)) (f (map gr (rev pop))))) = None).
+  { apply dict_get_None. intros Hin. apply H. rewrite map_rev in Hin. apply (proj1 (in_rev_iff _ _ _)) in Hin. exact Hin. }
+  rewrite E. reflexivity.
+Qed.
+
+(* the sequential dispatcher never consults a delegate: its model has no delegate argument at
+   all, and eval_sound_seq says every individual is evaluated on its own graph *)
+
+(* --- sequential = parallel ---------------------------------------------------------------------- *)
+Lemma cgc_nil : forall i, cgc [] i = gr i.
+Proof. reflexivity. Qed.
+
+Lemma survivors_ext : forall o cg cg' timer te,
+  (forall i, cg i = cg' i) -> survivors o cg timer te = survivors o cg' timer te.
+Proof.
+  intros. unfold survivors. apply flat_map_ext. intros ki. rewrite H. reflexivity.
+Qed.
+
+(* without delegate, whenever the fan-out of the parallel dispatcher is not empty it returns what
+   the sequential dispatcher returns on the reversed population (same individuals, same order) *)
+Theorem par_is_seq_on_reversed : forall o timer pop,
+  NoDup (map uid (to_evaluate pop)) -> ~ main_pass_empty o None timer pop ->
+  fst (evaluate_with_cache o None timer pop) = fst (sequential_evaluate o timer (rev pop)).
+Proof.
+  intros o timer pop ND Hne.
+  rewrite (evaluate_with_cache_closed o None timer pop ND).
+  rewrite (sequential_evaluate_closed o timer (rev pop) (NoDup_to_evaluate_rev pop ND)). simpl.
+  unfold mp_spec, seq_spec. unfold main_pass_empty in Hne.
+  rewrite (survivors_ext o (cgc []) gr timer _ cgc_nil).
+  rewrite (survivors_ext o (eff_graph None pop) gr timer _ (delegate_absent pop)) in Hne.
+  destruct (survivors o gr timer (to_evaluate (rev pop)) ++ to_skip (rev pop));
+    [exfalso; apply Hne; reflexivity|reflexivity].
+Qed.
+
+Lemma flat_map_index_free : forall A (G : ind -> list A) l k,
+  flat_map (fun ki => G (snd ki)) (index_from k l) = flat_map G l.
+Proof. induction l as [|a l IH]; simpl; intros; [reflexivity|]. rewrite IH. reflexivity. Qed.
+
+Lemma survivors_never : forall o cg te,
+  survivors o cg (fun _ => false) te =
+  flat_map (fun i => if valid (objective_value o (cg i)) then [evaluated_ind o (cg i) i] else []) te.
+Proof.
+  intros. unfold survivors. simpl.
+  apply (flat_map_index_free _ (fun i => if valid (objective_value o (cg i)) then [evaluated_ind o (cg i) i] else [])).
+Qed.
+
+(* with a time limit that is never reached and no delegate: sequential evaluation and parallel
+   evaluation (any order of results, see order_independent_par) return the same individuals with
+   the same fitness *)
+Theorem seq_par_same : forall o pop,
+  NoDup (map uid (to_evaluate pop)) ->
+  exists out_p out_s,
+    fst (evaluate_with_cache o None (fun _ => false) pop) = Ok out_p /\
+    fst (sequential_evaluate o (fun _ => false) pop) = Ok out_s /\
+    Permutation out_p out_s.
+Proof.
+  intros o pop ND.
+  rewrite (evaluate_with_cache_closed o None _ pop ND).
+  rewrite (sequential_evaluate_closed o _ pop ND). simpl.
+  eexists. eexists. split; [reflexivity|]. split; [reflexivity|].
+  unfold mp_spec, seq_spec. rewrite (survivors_ext o (cgc []) gr _ _ cgc_nil).
+  rewrite !survivors_never.
+  set (G := fun i => if valid (objective_value o (gr i)) then [evaluated_ind o (gr i) i] else []).
+  assert (PP : Permutation (flat_map G (to_evaluate (rev pop)) ++ to_skip (rev pop))
+                           (flat_map G (to_evaluate pop) ++ to_skip pop)).
+  { apply Permutation_app.
+    - apply Permutation_flat_map. rewrite to_evaluate_rev. apply Permutation_sym, Permutation_rev.
+    - rewrite to_skip_rev. apply Permutation_sym, Permutation_rev. }
+  destruct (flat_map G (to_evaluate (rev pop)) ++ to_skip (rev pop)) as [|y s] eqn:E; [|exact PP].
+  (* nothing came out of the fan-out: the forced evaluations fail again *)
+  apply app_eq_nil in E. destruct E as [E1 E2].
+  assert (Hinv : forall i, In i (rev pop) -> valid (fitness i) = false).
+  { intros i Hi. apply (filter_nil_all _ _ _ E2 i Hi). }
+  assert (F : fallback_spec o (cgc []) (rev pop) = []).
+  { unfold fallback_spec, first_evaluable.
+    assert (Fn : find (fun i => valid (objective_value o (cgc [] i))) (rev pop) = None).
+    { apply find_none_iff. intros i Hi. rewrite cgc_nil.
+      destruct (valid (objective_value o (gr i))) eqn:Ev; [|reflexivity]. exfalso.
+      assert (Hx : In (evaluated_ind o (gr i) i) (flat_map G (to_evaluate (rev pop)))).
+      { apply in_flat_map. exists i. split; [apply to_evaluate_In; auto|]. unfold G. rewrite Ev. simpl. auto. }
+      rewrite E1 in Hx. exact Hx. }
+    rewrite Fn. reflexivity. }
+  rewrite F. exact PP.
+Qed.
+
+(* ------------------------------------------------------------------------------------- *)
+(* G. witnesses: what fails outside the hypotheses, and what the forced evaluation costs   *)
+(* ------------------------------------------------------------------------------------- *)
+Definition w_objective : objective :=
+  {| metrics := [fun g => MVal (inject_Z (Z.of_nat g))]; multi := false |}.
+Definition w_failing : objective := {| metrics := [fun _ => MRaise]; multi := false |}.
+Definition w_dup_pop : list ind :=
+  [ {| uid := 0; fitness := Null; gr := 0 |}; {| uid := 0; fitness := Null; gr := 1 |} ].
+
+(* two not-yet-evaluated individuals with one uid: the order of the results decides which
+   fitness both of them get, and one of them receives the value of the other's graph *)
+Theorem duplicate_uids_order_matters :
+  fst (sequential_evaluate_shuffled (@rev _) w_objective (fun _ => false) w_dup_pop)
+  <> fst (sequential_evaluate w_objective (fun _ => false) w_dup_pop) /\
+  fst (sequential_evaluate w_objective (fun _ => false) w_dup_pop)
+  = Ok [ {| uid := 0; fitness := FSingle [inject_Z 1]; gr := 1 |};
+         {| uid := 0; fitness := FSingle [inject_Z 1]; gr := 1 |} ].
+Proof. split; [vm_compute; discriminate|vm_compute; reflexivity]. Qed.
+
+(* nothing evaluable, time left: the fan-out evaluates the graph, the forced evaluation
+   evaluates it again - the callback sees the failing graph twice *)
+Theorem failing_graph_seen_twice :
+  evaluate_with_cache w_failing None (fun _ => false) [ {| uid := 0; fitness := Null; gr := 7 |} ]
+  = (Ok [], [EvMetric 0 7; EvCallback 7; EvMetric 0 7; EvCallback 7]).
+Proof. vm_compute. reflexivity. Qed.
+
+(* ------------------------------------------------------------------------------------- *)
+(* H. the boolean predicates of the oracle decide the propositions used above             *)
+(* ------------------------------------------------------------------------------------- *)
+Lemma Q_eqb_eq : forall a b, Q_eqb a b = true <-> a = b.
+Proof.
+  intros [an ad] [bn bd]. unfold Q_eqb. simpl. rewrite andb_true_iff, Z.eqb_eq, Pos.eqb_eq.
+  split; [intros [-> ->]; reflexivity|intros H; inversion H; auto].
+Qed.
+
+Lemma list_eqb_eq : forall A (eqb : A -> A -> bool),
+  (forall a b, eqb a b = true <-> a = b) -> forall l r, list_eqb eqb l r = true <-> l = r.
+Proof.
+  intros A eqb H. induction l as [|a l IH]; destruct r as [|b r]; simpl; try (split; [discriminate|discriminate]).
+  - tauto.
+  - rewrite andb_true_iff, H, IH. split; [intros [-> ->]; reflexivity|intros E; inversion E; auto].
+Qed.
+
+Lemma fit_eqb_eq : forall f g, fit_eqb f g = true <-> f = g.
+Proof.
+  intros [|a|a] [|b|b]; simpl; try (split; [discriminate|discriminate]); try tauto;
+    rewrite (list_eqb_eq _ _ Q_eqb_eq); split; [intros ->; reflexivity|intros E; inversion E; auto|
+                                                 intros ->; reflexivity|intros E; inversion E; auto].
+Qed.
+
+Lemma ind_eqb_eq : forall a b, ind_eqb a b = true <-> a = b.
+Proof.
+  intros [u f g] [u' f' g']. unfold ind_eqb. simpl.
+  rewrite !andb_true_iff, !Nat.eqb_eq, fit_eqb_eq.
+  split; [intros [[-> ->] ->]; reflexivity|intros E; inversion E; auto].
+Qed.
+
+Lemma ev_eqb_eq : forall a b, ev_eqb a b = true <-> a = b.
+Proof.
+  intros [k g|g] [k' g'|g']; simpl; try (split; [discriminate|discriminate]).
+  - rewrite andb_true_iff, !Nat.eqb_eq. split; [intros [-> ->]; reflexivity|intros E; inversion E; auto].
+  - rewrite Nat.eqb_eq. split; [intros ->; reflexivity|intros E; inversion E; auto].
+Qed.
+
+Section PermB.
+  Variable A : Type.
+  Variable eqb : A -> A -> bool.
+  Hypothesis eqb_eq : forall a b, eqb a b = true <-> a = b.
+
+  Lemma remove1_Some : forall x l l', remove1 eqb x l = Some l' -> Permutation l (x :: l').
+  Proof.
+    induction l as [|y l IH]; simpl; intros l' H; [discriminate|].
+    destruct (eqb x y) eqn:E.
+    - apply eqb_eq in E. inversion H; subst. apply Permutation_refl.
+    - destruct (remove1 eqb x l) as [r|] eqn:R; [|discriminate]. inversion H; subst.
+      eapply Permutation_trans; [apply perm_skip; apply IH; reflexivity|apply perm_swap].
+  Qed.
+
+  Lemma remove1_None : forall x l, remove1 eqb x l = None -> ~ In x l.
+  Proof.
+    induction l as [|y l IH]; simpl; intros H; [tauto|].
+    destruct (eqb x y) eqn:E; [discriminate|].
+    destruct (remove1 eqb x l) eqn:R; [discriminate|].
+    intros [Hy|Hy]; [subst; assert (T : eqb x x = true) by (apply eqb_eq; reflexivity); congruence|].
+    apply IH; auto.
+  Qed.
+
+  Lemma perm_b_sound : forall l1 l2, perm_b eqb l1 l2 = true -> Permutation l1 l2.
+  Proof.
+    induction l1 as [|x l1 IH]; simpl; intros l2 H.
+    - destruct l2; [constructor|discriminate].
+    - destruct (remove1 eqb x l2) as [l2'|] eqn:R; [|discriminate].
+      eapply Permutation_trans; [apply perm_skip; apply IH; exact H|].
+      apply Permutation_sym. apply remove1_Some. exact R.
+  Qed.
+
+  Lemma perm_b_complete : forall l1 l2, Permutation l1 l2 -> perm_b eqb l1 l2 = true.
+  Proof.
+    induction l1 as [|x l1 IH]; simpl; intros l2 P.
+    - apply Permutation_nil in P. subst. reflexivity.
+    - destruct (remove1 eqb x l2) as [l2'|] eqn:R.
+      + apply IH. apply remove1_Some in R.
+        apply (Permutation_cons_inv (a := x)). eapply Permutation_trans; [exact P|exact R].
+      + exfalso. apply (remove1_None _ _ R). eapply Permutation_in; [exact P|simpl; auto].
+  Qed.
+
+  Theorem perm_b_iff : forall l1 l2, perm_b eqb l1 l2 = true <-> Permutation l1 l2.
+  Proof. intros. split; [apply perm_b_sound|apply perm_b_complete]. Qed.
+End PermB.
+
+Lemma existsb_eqb_In : forall x l, existsb (Nat.eqb x) l = true <-> In x l.
+Proof.
+  intros. rewrite existsb_exists. split.
+  - intros [y [Hy E]]. apply Nat.eqb_eq in E. subst. exact Hy.
+  - intros H. exists x. split; auto. apply Nat.eqb_refl.
+Qed.
+
+Theorem nodup_b_iff : forall l, nodup_b l = true <-> NoDup l.
+Proof.
+  induction l as [|x l IH]; simpl.
+  - split; [constructor|reflexivity].
+  - rewrite andb_true_iff, negb_true_iff, IH. split.
+    + intros [H1 H2]. constructor; auto. intros Hin. apply existsb_eqb_In in Hin. congruence.
+    + intros H. inversion H; subst. split; auto.
+      destruct (existsb (Nat.eqb x) l) eqn:E; auto. apply existsb_eqb_In in E. tauto.
+Qed.
+
+(* the quantifier the oracle works in is the hypothesis of the theorems (plus: no uid shared
+   between a not-yet-evaluated and a pre-evaluated individual, the side condition of
+   eval_complete_seq and eval_complete_par) *)
+Theorem in_scope_iff : forall c,
+  in_scope c = true <->
+  NoDup (map uid (to_evaluate (c_pop c))) /\
+  forall i, In i (to_evaluate (c_pop c)) -> ~ In (uid i) (map uid (to_skip (c_pop c))).
+Proof.
+  intros c. unfold in_scope, unevaluated, preevaluated. rewrite andb_true_iff, nodup_b_iff, forallb_forall.
+  split; intros [H1 H2]; split; auto.
+  - intros i Hi Hin. specialize (H2 i Hi). apply negb_true_iff in H2.
+    apply in_map_iff in Hin. destruct Hin as [j [Hu Hj]].
+    assert (T : existsb (fun j => Nat.eqb (uid i) (uid j)) (to_skip (c_pop c)) = true).
+    { apply existsb_exists. exists j. split; auto. apply Nat.eqb_eq. auto. }
+    congruence.
+  - intros i Hi. apply negb_true_iff. destruct (existsb _ (to_skip (c_pop c))) eqn:E; auto.
+    apply existsb_exists in E. destruct E as [j [Hj E]]. apply Nat.eqb_eq in E.
+    exfalso. apply (H2 i Hi). rewrite E. apply in_map. exact Hj.
+Qed.
+
+Theorem same_assignment_b_iff : forall a b,
+  same_assignment_b a b = true <->
+  (forall x, In x a -> exists y, In y b /\ uid x = uid y /\ fitness x = fitness y) /\
+  (forall y, In y b -> exists x, In x a /\ uid x = uid y /\ fitness x = fitness y).
+Proof.
+  intros a b. unfold same_assignment_b. rewrite andb_true_iff, !forallb_forall.
+  split; intros [H1 H2]; split.
+  - intros x Hx. specialize (H1 x Hx). apply existsb_exists in H1. destruct H1 as [y [Hy E]].
+    apply andb_true_iff in E. destruct E as [E1 E2]. apply Nat.eqb_eq in E1. apply fit_eqb_eq in E2. eauto.
+  - intros y Hy. specialize (H2 y Hy). apply existsb_exists in H2. destruct H2 as [x [Hx E]].
+    apply andb_true_iff in E. destruct E as [E1 E2]. apply Nat.eqb_eq in E1. apply fit_eqb_eq in E2. eauto.
+  - intros x Hx. destruct (H1 x Hx) as [y [Hy [E1 E2]]]. apply existsb_exists. exists y. split; auto.
+    apply andb_true_iff. split; [apply Nat.eqb_eq; auto|apply fit_eqb_eq; auto].
+  - intros y Hy. destruct (H2 y Hy) as [x [Hx [E1 E2]]]. apply existsb_exists. exists x. split; auto.
+    apply andb_true_iff. split; [apply Nat.eqb_eq; auto|apply fit_eqb_eq; auto].
+Qed.
